@@ -10,8 +10,19 @@ CE(sp, sc, dp, dc, n) == [sp |-> sp, sc |-> sc, dp |-> dp, dc |-> dc, n |-> n]
 Seeded == GenDocIn([DefG EXCEPT !.amts = <<AE("CCTP", "1", "HYP", "2", "uusdc", 0, 3), AE("HYP", "2", "CCTP", "1", "uusdc", 4, 4),
                                             AE("INT", "noble", "INT", "noble", "ustake", 5, 1), AE("IBC", "channel-0", "CCTP", "0", "uusdc", 10, 9)>>,
                                  !.cnts = <<CE("CCTP", "1", "HYP", "2", 2), CE("INT", "noble", "INT", "noble", 1), CE("IBC", "channel-0", "CCTP", "0", 7)>>])
+\* a ledger with more entries than the SDK's default page (100), and counterparties that are string
+\* prefixes of one another ("1", "10", "100", "2")
+BigLedger == GenDocIn([DefG EXCEPT !.amts = [n \in 1..130 |-> AE("IBC", "channel-" \o ToString(n), "CCTP", "0", "uusdc", n, n)],
+                                    !.cnts = [n \in 1..130 |-> CE("IBC", "channel-" \o ToString(n), "CCTP", "0", n)]])
+PrefixLedger == GenDocIn([DefG EXCEPT !.amts = << AE("IBC", "channel-0", "CCTP", "1", "uusdc", 1, 1), AE("IBC", "channel-0", "CCTP", "10", "uusdc", 2, 2),
+                                                  AE("IBC", "channel-0", "CCTP", "100", "uusdc", 3, 3), AE("IBC", "channel-0", "CCTP", "2", "uusdc", 4, 4),
+                                                  AE("IBC", "channel-1", "HYP", "1", "uusdc", 5, 5), AE("IBC", "channel-10", "HYP", "1", "uusdc", 6, 6) >>,
+                                       !.cnts = << CE("IBC", "channel-0", "CCTP", "1", 1), CE("IBC", "channel-0", "CCTP", "10", 2), CE("IBC", "channel-0", "CCTP", "100", 3),
+                                                   CE("IBC", "channel-0", "CCTP", "2", 4), CE("IBC", "channel-1", "HYP", "1", 5), CE("IBC", "channel-10", "HYP", "1", 6) >>])
 Fee == <<FeeAct(<<Bps(100, "F1")>>)>>
 Prefix == CASE GenSet = "empty" -> <<>>
+            [] GenSet = "big" -> << BigLedger >>
+            [] GenSet = "prefix" -> << PrefixLedger >>
             [] GenSet = "one" -> << Xfer(0, "uusdc", 1000, FwCCTP(0, "MINT_A", "NONE"), Fee) >>
             [] GenSet = "mixed" -> << Xfer(0, "uusdc", 1000, FwCCTP(0, "MINT_A", "NONE"), Fee), Xfer(1, "uusdc", 1000, FwCCTP(0, "MINT_A", "NONE"), <<>>),
                                       Xfer(0, "uusdc", 1000, FwCCTP(1, "MINT_A", "NONE"), <<>>), Xfer(0, "uusdc", 1000, FwHYP("T1", 1, "R_A"), Fee),
